@@ -26,6 +26,10 @@ var Tricky = []string{
 	"very long string with several words so that folding or line wrapping in an emitter would kick in somewhere around here and go on for a while longer than eighty characters",
 }
 
+// LookalikeKeys are strings that, written unquoted, would resolve to another
+// YAML type (so an encoder must quote them when they are mapping keys).
+var LookalikeKeys = []string{"007", "0x10", "0o7", "1_000", "1.50", "+5", "-0", "~", "null", "Null", "true", "False", "1e3", ".5", "3.", "0b11", "1:20", "2002-08-15", ".inf", "-.INF", ".NaN", "yes", "off", "0", "12", "-7", "1.0"}
+
 // LeadingWSMultiline strings are excluded on the YAML leg by C02/C09's text.
 var LeadingWSMultiline = []string{" a\nb", "\na", "\n", " \n", "\ta\nb", "\r\na", "  x\n  y\n"}
 
@@ -168,7 +172,9 @@ func Scalar(r *rand.Rand, o ValueOpts) *doc.Node {
 // Key draws a mapping key.
 func Key(r *rand.Rand, o ValueOpts) string {
 	var k string
-	if o.KeyTricky && r.IntN(3) == 0 {
+	if o.KeyTricky && r.IntN(6) == 0 {
+		k = Pick(r, LookalikeKeys)
+	} else if o.KeyTricky && r.IntN(3) == 0 {
 		k = String(r, o.Str)
 		if k == "<<" { // known finding K4 (yaml.v3 emits the key << unquoted)
 			k = "<<x"
